@@ -283,6 +283,9 @@ type pathCtx struct {
 	viol      []Violation
 	assumes   map[string]bool
 
+	model   []int // a satisfying assignment of the path condition (selector vars), if modelOK
+	modelOK bool
+
 	lastRecMsg   string
 	lastRecSite  string
 	lastRecStack []string
@@ -375,6 +378,72 @@ func (c *pathCtx) query(smt string) string {
 	return r
 }
 
+// evalModel evaluates a bool table under the cached model of the path condition.
+func (c *pathCtx) evalModel(s *Sym) (bool, bool) {
+	if !c.modelOK {
+		return false, false
+	}
+	idx := 0
+	for _, v := range s.vars {
+		val := 0
+		if v.id < len(c.model) && c.model[v.id] >= 0 {
+			val = c.model[v.id]
+		} else {
+			// variable younger than the model: unconstrained so far, any live value will do
+			val = -1
+			for k := 0; k < v.n; k++ {
+				if c.liveVal(v, k) {
+					val = k
+					break
+				}
+			}
+			if val < 0 {
+				return false, false
+			}
+			for len(c.model) <= v.id {
+				c.model = append(c.model, -1)
+			}
+			c.model[v.id] = val
+		}
+		if !c.liveVal(v, val) {
+			return false, false
+		}
+		idx = idx*v.n + val
+	}
+	return s.leaves[idx].(bool), true
+}
+
+// querySat checks pc ∧ smt and, if satisfiable, returns a model of the selector vars.
+func (c *pathCtx) querySat(smt string) (bool, []int) {
+	if len(c.vars) == 0 || c.nterms > 0 {
+		return c.query(smt) == "sat", nil
+	}
+	names := make([]string, len(c.vars))
+	for i, v := range c.vars {
+		names[i] = v.smt()
+	}
+	t0 := time.Now()
+	r, m := c.solver.model(smt, names)
+	d := time.Since(t0).Nanoseconds()
+	c.stats.SolverQueries++
+	c.stats.SolverNs += d
+	if d > c.stats.SolverMaxNs {
+		c.stats.SolverMaxNs = d
+	}
+	if r != "sat" && r != "unsat" {
+		c.stats.Unknown++
+		panic(pathAbort{"solver", "solver answered " + r + " for " + truncate(smt, 200)})
+	}
+	if r == "unsat" {
+		return false, nil
+	}
+	model := make([]int, len(c.vars))
+	for i, v := range c.vars {
+		model[i] = int(m[v.smt()])
+	}
+	return true, model
+}
+
 func truncate(s string, n int) string {
 	if len(s) > n {
 		return s[:n] + "…"
@@ -442,20 +511,59 @@ func (fr *frame) branch(cond value) bool {
 	if c.pos < len(c.prefix) {
 		take = c.prefix[c.pos] == 1
 		c.pos++
+		if sym != nil {
+			if b, ok := c.evalModel(sym); !ok || b != take {
+				c.modelOK = false
+			}
+		} else {
+			c.modelOK = false
+		}
 	} else {
 		c.pos++
-		if c.query(smt) == "unsat" {
-			take = false
-		} else if c.query("(not "+smt+")") == "unsat" {
-			take = true
+		witness, known := false, false
+		if sym != nil {
+			witness, known = c.evalModel(sym)
+		}
+		if known {
+			// the cached model shows that side 'witness' is feasible
+			other := "(not " + smt + ")"
+			if !witness {
+				other = smt
+			}
+			if ok, _ := c.querySat(other); !ok {
+				take = witness
+			} else {
+				take = witness
+				alt := make([]byte, len(c.decisions)+1)
+				copy(alt, c.decisions)
+				if !witness {
+					alt[len(c.decisions)] = 1
+				}
+				c.stats.Forks++
+				c.ex.push(alt)
+			}
 		} else {
-			// fork: follow true, queue false
-			take = true
-			alt := make([]byte, len(c.decisions)+1)
-			copy(alt, c.decisions)
-			alt[len(c.decisions)] = 0
-			c.stats.Forks++
-			c.ex.push(alt)
+			okT, mT := c.querySat(smt)
+			if !okT {
+				take = false
+				c.modelOK = false
+			} else if okF, _ := c.querySat("(not " + smt + ")"); !okF {
+				take = true
+				if mT != nil {
+					c.model, c.modelOK = mT, true
+				}
+			} else {
+				// fork: follow true, queue false
+				take = true
+				if mT != nil {
+					c.model, c.modelOK = mT, true
+				}
+				alt := make([]byte, len(c.decisions)+1)
+				copy(alt, c.decisions)
+				alt[len(c.decisions)] = 0
+				c.stats.Forks++
+				c.ex.push(alt)
+			}
 		}
 	}
 	if take {
@@ -667,7 +775,7 @@ func (ex *Explorer) runPath(s *solver, prefix []byte) {
 
 	var sample *PathSample
 	ex.mu.Lock()
-	needSample := len(ex.res.Samples) < ex.opt.Samples && (end == "completed" || end == "panic" || end == "exit")
+	needSample := len(ex.res.Samples) < ex.opt.Samples && (end == "completed" || end == "panic" || end == "exit" || ex.opt.KeepOutput)
 	var needCover []string
 	for l := range c.covers {
 		if _, ok := ex.res.CoverModel[l]; !ok {
